@@ -144,10 +144,29 @@ pub fn types() -> Vec<TypeEntry> {
 
 pub type ParseFn = fn(&[u8]) -> Result<String, ZVTError>;
 pub type ParseQuietFn = fn(&[u8]) -> Result<(), ZVTError>;
+/// read up to n packets from a byte stream through `PacketTransport::read_packet::<Enum>`: per read Ok(Debug) / Err(text)
+pub type ReadFn = fn(Vec<u8>, usize) -> Vec<Result<String, String>>;
 pub struct EnumEntry {
     pub name: &'static str,
     pub parse: ParseFn,
     pub quiet: ParseQuietFn,
+    pub read: ReadFn,
+}
+fn read_n<T: ZvtParser + std::fmt::Debug + Send>(data: Vec<u8>, n: usize) -> Vec<Result<String, String>> {
+    let mut tr = zvt::io::PacketTransport { source: crate::peer::Peer::preloaded(data, vec![], None) };
+    (0..n).map(|_| futures::executor::block_on(tr.read_packet::<T>()).map(|v| format!("{v:?}")).map_err(|e| format!("{e:#}"))).collect()
+}
+fn read_ack(data: Vec<u8>, n: usize) -> Vec<Result<String, String>> {
+    let mut tr = zvt::io::PacketTransport { source: crate::peer::Peer::preloaded(data, vec![], None) };
+    (0..n)
+        .map(|_| {
+            futures::executor::block_on(tr.read_packet::<zvt::io::Ack>())
+                .map(|v| match v {
+                    zvt::io::Ack::Ack(p) => format!("Ack({p:?})"),
+                })
+                .map_err(|e| format!("{e:#}"))
+        })
+        .collect()
 }
 fn parse<T: ZvtParser + std::fmt::Debug>(b: &[u8]) -> Result<String, ZVTError> {
     T::zvt_parse(b).map(|v| format!("{v:?}"))
@@ -162,12 +181,12 @@ fn parse_ack(b: &[u8]) -> Result<String, ZVTError> {
 }
 macro_rules! en {
     ($name:literal, $t:ty) => {
-        EnumEntry { name: $name, parse: parse::<$t>, quiet: parse_quiet::<$t> }
+        EnumEntry { name: $name, parse: parse::<$t>, quiet: parse_quiet::<$t>, read: read_n::<$t> }
     };
 }
 pub fn enums() -> Vec<EnumEntry> {
     vec![
-        EnumEntry { name: "io.Ack", parse: parse_ack, quiet: parse_quiet::<zvt::io::Ack> },
+        EnumEntry { name: "io.Ack", parse: parse_ack, quiet: parse_quiet::<zvt::io::Ack>, read: read_ack },
         en!("RegistrationResponse", s::RegistrationResponse),
         en!("ReadCardResponse", s::ReadCardResponse),
         en!("InitializationResponse", s::InitializationResponse),
